@@ -24,9 +24,16 @@ NodeOf(kind, eu, ev) ==
 \* p, q: two references to the node s (a diamond over a container); r, r2: a plain reference and a splice using t again
 World(kind, eu, ev, envs, res) ==
   [root |-> N(("s" :> NodeOf(kind, eu, ev)) @@ ("t" :> StrV("ok")) @@ ("p" :> Dyn(Ref("s"))) @@ ("q" :> Dyn(Ref("s")))
-              @@ ("r" :> Dyn(Ref("t"))) @@ ("r2" :> Dyn(Cat(<<Lit("pre-"), Ref("t")>>))), <<>>), envs |-> envs, res |-> res]
-ReadNames(kind) == CASE kind = "list" -> <<"s.0", "s.1", "t">> [] kind = "cased" -> <<"s.k", "s.K", "t">>
-                     [] kind = "nlist" -> <<"s.0.0", "s.0.1", "t">> [] kind = "ndict" -> <<"s.0.u", "s.0.v", "t">> [] OTHER -> <<"s.u", "s.v", "t">>
+              @@ ("r" :> Dyn(Ref("t"))) @@ ("r2" :> Dyn(Cat(<<Lit("pre-"), Ref("t")>>)))
+              \* the operators applied to a NESTED name that is set (g.h) and one that is not (g.zz): the name was split when
+              \* the setting was created, so a reader that passes no path separator gets the same answers
+              @@ ("g" :> N(("h" :> StrV("gv")), <<>>))
+              @@ ("o1" :> Dyn(Def(Lit("g.h"), Lit("dflt")))) @@ ("o2" :> Dyn(Alt(Lit("g.h"), Lit("alt"))))
+              @@ ("o3" :> Dyn(ErrOp(Lit("g.h"), Lit("must")))) @@ ("o4" :> Dyn(Def(Lit("g.zz"), Lit("dflt")))), <<>>),
+   envs |-> envs, res |-> res]
+ReadNames(kind) == (CASE kind = "list" -> <<"s.0", "s.1", "t">> [] kind = "cased" -> <<"s.k", "s.K", "t">>
+                     [] kind = "nlist" -> <<"s.0.0", "s.0.1", "t">> [] kind = "ndict" -> <<"s.0.u", "s.0.v", "t">> [] OTHER -> <<"s.u", "s.v", "t">>)
+                   \o <<"o1", "o2", "o3", "o4">>
 \* ONE Unpack into a struct { R interface{}; R2 string; RR interface{} (again r); P, Q []interface{} or interface{} }:
 \* every field is the value of its setting, read for itself - using a name twice, or reaching a container along two
 \* paths, is no cycle
@@ -61,13 +68,15 @@ Case(kind, W) ==
 
 E1 == N(("m" :> StrV("e1")), <<>>)
 R1 == ("m" :> "r1") @@ ("zz" :> "rz")
+\* a resolver whose answers are list texts that mention the very name they answer
+R2 == ("m" :> "${m},q") @@ ("zz" :> "[${zz}]")
 Init == shp \in Shapes /\ cs = <<>>
 Next == /\ cs = <<>> /\ UNCHANGED shp
-        /\ \E kind \in {"mixed", "dict", "list", "cased", "nlist", "ndict"}, ev \in Shapes, envs \in {<<>>, <<E1>>}, res \in {<<>>, <<R1>>} :
+        /\ \E kind \in {"mixed", "dict", "list", "cased", "nlist", "ndict"}, ev \in Shapes, envs \in {<<>>, <<E1>>}, res \in {<<>>, <<R1>>, <<R2>>} :
               cs' = <<kind, ev, envs, res>> /\ PrintT(ToJson(Case(kind, World(kind, shp, ev, envs, res))))
 View == <<shp, cs = <<>> >>
 TabMixed == ("s.u" :> <<NF("s"), NF("u")>>) @@ ("s.v" :> <<NF("s"), NF("v")>>) @@ ("s.0" :> <<NF("s"), IX(0)>>) @@ ("s.1" :> <<NF("s"), IX(1)>>)
-            @@ ("s.k" :> <<NF("s"), NF("k")>>) @@ ("s.K" :> <<NF("s"), NF("K")>>) @@ ("s" :> <<NF("s")>>)
+            @@ ("s.k" :> <<NF("s"), NF("k")>>) @@ ("s.K" :> <<NF("s"), NF("K")>>) @@ ("s" :> <<NF("s")>>) @@ ("g.h" :> <<NF("g"), NF("h")>>) @@ ("g.zz" :> <<NF("g"), NF("zz")>>)
             @@ ("s.0.0" :> <<NF("s"), IX(0), IX(0)>>) @@ ("s.0.1" :> <<NF("s"), IX(0), IX(1)>>)
             @@ ("s.0.u" :> <<NF("s"), IX(0), NF("u")>>) @@ ("s.0.v" :> <<NF("s"), IX(0), NF("v")>>)
 TypeOK == shp \in Shapes
